@@ -247,6 +247,36 @@ pub fn run(tier: &Tier) -> i32 {
             wk.flush(c);
         })
     });
+    // every value of every constant class in a definition: all SET values, all DB values (signed and
+    // unsigned spelling), all DW values, all array counts that fit (each behind one odd byte, so that
+    // the definition is not aligned)
+    let exhaustive_defs = AtomicU64::new(0);
+    {
+        let mut jobs: Vec<Vec<DataDef>> = Vec::new();
+        let lab = |k: &str| Some(k.to_string());
+        for n in 0..=65535u32 {
+            jobs.push(vec![DataDef::Set(n as u16), DataDef::Val(None, W::B, 0x11), DataDef::Val(lab("l1"), W::W, 0x5AA5)]);
+        }
+        for v in -128..=255i32 {
+            jobs.push(vec![DataDef::Val(None, W::B, 0x11), DataDef::Val(lab("l1"), W::B, v), DataDef::ArrVal(lab("l2"), W::B, v, 3)]);
+        }
+        for v in (-32768..=65535i32).step_by(if tier.thorough { 1 } else { 3 }) {
+            jobs.push(vec![DataDef::Val(None, W::B, 0x11), DataDef::Val(lab("l1"), W::W, v), DataDef::ArrVal(lab("l2"), W::W, v ^ 0x0101 & 0x7FFF, 2)]);
+        }
+        for n in (0..=32767u32).step_by(if tier.thorough { 1 } else { 5 }) {
+            jobs.push(vec![DataDef::Val(None, W::B, 0x11), DataDef::Arr(lab("l1"), W::W, n as u16), DataDef::Val(lab("l2"), W::B, 0x77)]);
+            jobs.push(vec![DataDef::Val(None, W::B, 0x11), DataDef::ArrVal(lab("l1"), W::B, 0x33, (n * 2) as u16), DataDef::Val(lab("l2"), W::B, 0x77)]);
+        }
+        exhaustive_defs.store(jobs.len() as u64, Ordering::Relaxed);
+        jobs.par_chunks(256).for_each(|ch| {
+            with_worker(|wk| {
+                for d in ch {
+                    check_layout(rep, c, wk, d, &stats);
+                }
+                wk.flush(c);
+            })
+        });
+    }
     if tier.thorough {
         // length 4 over a reduced alphabet
         let red: Vec<&DataDef> = alpha.iter().enumerate().filter(|(i, _)| i % 3 == 0).map(|(_, d)| d).collect();
@@ -278,8 +308,8 @@ pub fn run(tier: &Tier) -> i32 {
     c.sample(json!({"alphabet": alpha.iter().map(|d| join_toks(&data_toks(d)).chars().take(40).collect::<String>()).collect::<Vec<_>>()}));
     let mut cov = Coverage::default();
     cov.exhaustive = true;
-    cov.rule = format!("all sequences of 1..={} definitions over a {}-item alphabet (SET with 5 segment values incl. 0xF000/0xFFFF so that images wrap at 1 MB; DB/DW single values at the signed/unsigned extremes, zero arrays and value arrays with counts 0..65535, strings of length 0,1,2,17; about half of them labelled){}: the program is assembled by the real Preprocessor, loaded by the real DataParser, and the WHOLE 1 MB is compared with an independently computed image; every label is checked through the assembler's label map, through OFFSET in an instruction and through a load via the label operand with DS set to its segment; more than 64 KiB in one segment must be diagnosed (exactly 64 KiB: either). CLI: DS=0000 at start", maxlen, n, if tier.thorough { " plus all sequences of 4 over a third of the alphabet" } else { "" });
-    cov.bounds = json!({"alphabet": n, "max_len": if tier.thorough {4} else {3}, "loaded_and_compared": stats.0.load(Ordering::Relaxed), "diagnosed": stats.1.load(Ordering::Relaxed), "tier": tier.name()});
+    cov.rule = format!("all sequences of 1..={} definitions over a {}-item alphabet (SET with 5 segment values incl. 0xF000/0xFFFF so that images wrap at 1 MB; DB/DW single values at the signed/unsigned extremes, zero arrays and value arrays with counts 0..65535, strings of length 0,1,2,17; about half of them labelled){}: the program is assembled by the real Preprocessor, loaded by the real DataParser, and the WHOLE 1 MB is compared with an independently computed image; every label is checked through the assembler's label map, through OFFSET in an instruction and through a load via the label operand with DS set to its segment; more than 64 KiB in one segment must be diagnosed (exactly 64 KiB: either). Plus, exhaustively per constant class: all 65536 SET values, all 384 DB values, all (quick: every third) DW values -32768..65535, array counts 0..32767 (quick: every fifth) for zero and value arrays, each behind one odd byte and followed by a labelled definition. CLI: DS=0000 at start", maxlen, n, if tier.thorough { " plus all sequences of 4 over a third of the alphabet" } else { "" });
+    cov.bounds = json!({"alphabet": n, "max_len": if tier.thorough {4} else {3}, "exhaustive_constant_definitions": exhaustive_defs.load(Ordering::Relaxed), "loaded_and_compared": stats.0.load(Ordering::Relaxed), "diagnosed": stats.1.load(Ordering::Relaxed), "tier": tier.name()});
     cov.assumptions = common_assumptions();
     cov.cli_runs = CLI_RUNS.load(Ordering::Relaxed);
     cov.distinct_nontrivial = stats.0.load(Ordering::Relaxed);
